@@ -283,6 +283,22 @@ def run_objev(root, hexs):
         return "CRASH %s" % crash_name(e)
 
 
+def run_evobj(root, hexs):
+    """events_to_obj applied to the events of an accepted strict decode"""
+    from tpmstream.common.object import events_to_obj
+
+    t, kw = parse_root(root)
+    data = b"" if hexs == "-" else bytes.fromhex(hexs)
+    try:
+        evs = list(Binary.marshal(tpm_type=t, buffer=data, abort_on_error=True, **kw))
+    except Exception:  # noqa
+        return "None"
+    try:
+        return show_obj(events_to_obj(evs, command_code=kw.get("command_code")))
+    except Exception as e:  # noqa
+        return "CRASH %s" % crash_name(e)
+
+
 def run_intops(name, v, w):
     """C16: the typed value behaves as the plain integer (both operand orders)"""
     import operator as op
@@ -955,6 +971,8 @@ def handle(line):
         return run_obj(parts[2], parts[3])
     if parts[0] == "objev":
         return run_objev(parts[2], parts[3])
+    if parts[0] == "evobj":
+        return run_evobj(parts[2], parts[3])
     if parts[0] == "int":
         return run_int(parts[2], parts[3])
     if parts[0] == "intops":
